@@ -981,14 +981,31 @@ def run_count(case, ctx):
     for t in gen.topo_tags(m):
         ctx.feature(t)
     k = rng.choice([1, 2, 2, 3, 3, 3, 4, 4])
+    # five and six sample sets (a share of the cases with enough samples): keys spanning >= 6 sets are the first whose
+    # embedded topologies can have two same-shape sibling subtrees of three tips, i.e. several labellings per subtree
+    many = len(samples) >= 5 and rng.random() < 0.35
+    if many:
+        k = min(len(samples), rng.choice([5, 6, 6, 6]))
     pool = list(samples)
     rng.shuffle(pool)
     sets = [[] for _ in range(k)]
     style = rng.choice(["random", "random", "all", "by-pop"])
-    for u in pool:
-        if style == "random" and rng.random() < 0.2:
-            continue
-        sets[rng.randrange(k)].append(u)
+    if many:
+        # every set non-empty, at most two samples per set (the brute force multiplies the set sizes)
+        for i in range(k):
+            sets[i].append(pool[i])
+        for u in pool[k:]:
+            i = rng.randrange(k)
+            if len(sets[i]) < 2 and rng.random() < 0.6:
+                sets[i].append(u)
+        if style == "all":
+            style = "random"
+        ctx.feature(f"many-sample-sets:{k}")
+    else:
+        for u in pool:
+            if style == "random" and rng.random() < 0.2:
+                continue
+            sets[rng.randrange(k)].append(u)
     sets = [s[:4] if len(pool) > 10 else s for s in sets]
     if rng.random() < 0.5:
         sets = [sorted(s) for s in sets]
